@@ -4,7 +4,7 @@
 # of /repo's HEAD), runs the check of the property it is recorded under against
 # that tree (tools/check_at), and writes /verif/seeded/REVERTS.md.  "A fixed entry
 # suppresses nothing": each of these must make the check report a violation again.
-cd /verif || exit 2
+cd "$(dirname "$0")/.." || exit 2
 export GOFLAGS=-mod=mod GOPROXY=off GOSUMDB=off GOTOOLCHAIN=local
 tier="${1:-quick}"
 out=seeded/REVERTS.md
@@ -15,10 +15,10 @@ echo "| fix commit | property | reverted cleanly | check ($tier) exit | violatio
 echo "|---|---|---|---|---|" >> $out
 grep '^fixed:' known_findings.jsonl | while read -r _ propkv commit rest; do
   prop=${propkv#property=}
-  git -C $wt checkout -q -- . ; git -C $wt clean -fdq
+  git -C $wt reset -q --hard; git -C $wt clean -fdq
   if ! git -C /repo diff "$commit^" "$commit" | git -C $wt apply -R 2>/dev/null; then
     if ! git -C /repo diff "$commit^" "$commit" | git -C $wt apply -R --3way 2>/dev/null; then
-      git -C $wt checkout -q -- . ; git -C $wt reset -q
+      git -C $wt reset -q --hard
       echo "| $commit | $prop | no (later commits touch the same lines) | - | |" >> $out
       continue
     fi
@@ -39,5 +39,5 @@ grep '^fixed:' known_findings.jsonl | while read -r _ propkv commit rest; do
   rm -f $log
 done
 git -C /repo worktree remove --force $wt
-rm -rf /tmp/check_at/_tmp_wt-revert
+
 cat $out | cut -c1-250
